@@ -253,6 +253,13 @@ def run(unit, features=(), repo=REPO, seed=None, rlimit=40, extra_args=(), tag="
                 d.clause = o["clause"]
                 d.props = clause_props.get(d.clause, [])
                 break
+        if d.fn is None and d.clause and getattr(d, "fn_name", None) is None:
+            # clause of a hand-written wrapper around a span: the label starts with the wrapper's name
+            head = d.clause.split(".")[0]
+            for e in registry:
+                if e.get("span") and e["name"] == head:
+                    d.fn, d.fn_name = e, e["name"]
+                    break
         if d.kind in ("postcondition", "invariant"):
             for sp in spans:
                 if not sp.get("is_primary") or len(spans) == 1:
